@@ -292,6 +292,8 @@ def run_history(ops, props=('C01', 'C02', 'C05', 'C06')):
                 seq = [pos[r] for r in ran if r in pos]
                 if seq != sorted(seq):
                     out.append((dyn or 'C01', f'run order {ran_ids} violates priority/registration order'))
+                    if dyn:
+                        out.append(('C01', f'run order {ran_ids} violates priority/registration order'))
                 if w.completed_at is not None and len(w.log) > w.completed_at:
                     out.append(('C06', f'systems ran after completion within the step: {ran_ids[w.completed_at:]}'))
                 for r in start_reg:
@@ -378,6 +380,18 @@ def dynamic_histories():
                 ops = [('add', f's{k}', 0, 1, 0, None, [('replace', f's{target}', prio, 1)] if k == pos else [])
                        for k in range(3)]
                 yield ops + [('step', 3)]
+    # two edits in one execute(): the actor removes itself AND changes the queue in front of it
+    for pos in (1, 2, 3):
+        for second in (('remove', 's0', 1), ('add', 'hi', 7, 1), ('add', 'same', 0, 1), ('replace', 's0', 3, 1)):
+            ops = [('add', f's{k}', 0, 1, 0, None, [('remove', f's{pos}', 1), second] if k == pos else []) for k in range(5)]
+            yield ops + [('step', 3)]
+            ops = [('add', f's{k}', 0, 1, 0, None, [second, ('remove', f's{pos}', 1)] if k == pos else []) for k in range(5)]
+            yield ops + [('step', 3)]
+    # equal priorities with a mid-step removal of a system that is not the first of its priority class
+    for target in (1, 2, 3):
+        ops = [('add', f's{k}', (1 if k == 0 else 0), 1, 0, None, [('remove', f's{target}', 1)] if k == 0 else [])
+               for k in range(5)]
+        yield ops + [('step', 3)]
     for pa, pb, pc in itertools.product([0, 1], repeat=3):
         yield [('add', 'a', pa, 1, 0, None, [('remove', 'a', 0)]), ('add', 'b', pb, 1, 0, None, []),
                ('add', 'c', pc, 1, 0, None, [('add', 'n', 2, 0)]), ('step', 2)]
@@ -392,7 +406,8 @@ def random_history(rng, dynamic=False):
             script = []
             if rng.random() < 0.12:
                 script.append(('complete', rng.randint(0, 6)))
-            if dynamic and rng.random() < 0.4:
+            for _rep in range(2 if dynamic and rng.random() < 0.3 else 1):
+              if dynamic and rng.random() < 0.4:
                 rr = rng.random()
                 if rr < 0.25:
                     script.append(('replace', rng.choice(ids), rng.randint(-1, 2), rng.randint(0, 4)))
